@@ -161,6 +161,7 @@ class Api:
     def __init__(self):
         self.classes = {}     # name -> {header, base, template_default, members:[...], nested_in}
         self.free = []        # free operator templates: {name, params, ret, header}
+        self.enum_functions = []   # free function templates over one enumeration type: {name, tparam, ret, params, header}
         self.functions = []   # free non-operator function templates: {name, ns, ret, params, constexpr, tparams, header}
         self.hashes = []      # class names with std::hash specialisation
         self.skipped = []     # (where, text, why)
@@ -189,6 +190,7 @@ class Api:
             self._classes(inc, text)
             self._free(inc, text)
             self._functions(inc, text)
+            self._enum_functions(inc, text)
             for m in re.finditer(r"struct\s+hash<\s*PhQ::([\w:]+)(?:<\s*NumericType\s*>)?\s*>", text):
                 self.hashes.append(m.group(1))
 
@@ -242,7 +244,8 @@ class Api:
             self.free.append({"name": name, "ret": ret, "params": ps, "header": inc})
 
     @staticmethod
-    def _at_namespace_scope(text, pos):
+    def _namespace_path(text, pos):
+        """names of the namespaces enclosing text[pos] ("" for an unnamed one), or None when pos is inside a class or function body"""
         stack = []
         i = 0
         while i < pos:
@@ -253,12 +256,19 @@ class Api:
                     i += 2 if text[i] == "\\" else 1
             elif c == "{":
                 head = text[max(0, i - 80):i]
-                stack.append(bool(re.search(r"namespace(\s+[\w:]+)?\s*$", head)))
+                m = re.search(r"namespace(?:\s+([\w:]+))?\s*$", head)
+                stack.append((m.group(1) or "") if m else None)
             elif c == "}":
                 if stack:
                     stack.pop()
             i += 1
-        return all(stack)
+        if any(x is None for x in stack):
+            return None
+        return [part for x in stack for part in (x.split("::") if x else [""])]
+
+    @classmethod
+    def _at_namespace_scope(cls, text, pos):
+        return cls._namespace_path(text, pos) is not None
 
     def _functions(self, inc, text):
         """free, non-operator function templates over NumericType at namespace scope (in the pinned tree: the std:: math
@@ -281,20 +291,54 @@ class Api:
             if not re.match(r"\s*(?:const\s*)?(?:noexcept\s*)?\{", after):
                 continue   # declaration only, or a member definition with trailing qualifiers we do not model
             # inside a class or function body?  (member templates are handled with their class)
-            if not self._at_namespace_scope(text, m.start()):
+            path = self._namespace_path(text, m.start())
+            if path is None:
+                continue
+            if any(part == "" or part.lower() in ("internal", "detail", "details", "impl") for part in path):
+                continue   # implementation namespaces are not public API (their callers are)
+            if path not in (["PhQ"], ["std"]):
+                self.skipped.append((inc, name, "free function template in namespace %s: not modelled" % "::".join(path)))
                 continue
             ps = []
             for p in _split_params(re.sub(r"\s+", " ", text[lp + 1:rp])):
                 ty, mut = _param_type(p)
                 ps.append({"type": ty, "mutable_ref": mut, "raw": p})
-            ns = "std" if any(a <= m.start() < b for a, b in std_spans) else "PhQ"
+            ns = path[0]
             self.functions.append({"name": name, "ns": ns, "ret": ret, "params": ps, "constexpr": "constexpr" in m.group(2),
                                    "two_types": "OtherNumericType" in m.group(1), "header": inc})
+
+    # free function templates over a single enumeration type (template <typename Unit> / <typename Enumeration>) that the
+    # hand-written unit/enumeration ops of the harness already call
+    HAND_COVERED_ENUM_FUNCTIONS = ("Abbreviation", "ParseEnumeration", "ConsistentUnit", "RelatedUnitSystem")
+
+    def _enum_functions(self, inc, text):
+        """free, non-operator function templates over ONE enumeration type at PhQ namespace scope (stream manipulators,
+        per-unit-type helpers ...); the template argument is always written explicitly by the harness"""
+        for m in re.finditer(r"\n(template\s*<\s*typename\s+(Unit|UnitType|Enumeration)\s*>\s*)((?:\[\[nodiscard\]\]\s*)?(?:inline\s+|constexpr\s+|static\s+)*)"
+                             r"([\w:<>&\s,]+?)\s+(\w+)\s*\(", text):
+            name = m.group(5)
+            ret = re.sub(r"\s+", " ", m.group(4)).strip()
+            if name == "operator" or name in self.HAND_COVERED_ENUM_FUNCTIONS or ret.endswith(":") or ret in ("class", "struct", "const"):
+                continue
+            lp = m.end() - 1
+            rp = _match(text, lp, "(", ")")
+            if rp < 0:
+                continue
+            if not re.match(r"\s*(?:noexcept\s*)?\{", text[rp + 1:rp + 40]):
+                continue
+            path = self._namespace_path(text, m.start())
+            if path != ["PhQ"]:
+                continue
+            ps = []
+            for p in _split_params(re.sub(r"\s+", " ", text[lp + 1:rp])):
+                ty, mut = _param_type(p)
+                ps.append({"type": ty, "mutable_ref": mut, "raw": p})
+            self.enum_functions.append({"name": name, "tparam": m.group(2), "ret": ret, "params": ps, "header": inc})
 
     def summary(self):
         n = sum(len(c["members"]) for c in self.classes.values())
         return {"classes": len(self.classes), "public_members": n, "free_operator_templates": len(self.free),
-                "free_function_templates": len(self.functions), "hash_specialisations": len(self.hashes)}
+                "free_function_templates": len(self.functions), "enum_function_templates": len(self.enum_functions), "hash_specialisations": len(self.hashes)}
 
 
 if __name__ == "__main__":
